@@ -7,16 +7,23 @@ pub(crate) mod kani_encidx {
     use super::super::*;
     use crate::systematic_constants::verif_hooks::p1_row;
     use crate::systematic_constants::SYSTEMATIC_INDICES_AND_PARAMETERS;
-    use crate::verif::rfc::enc_indices_spec;
 
-    // C15/C04: enc_indices for a symbolic table row and ANY tuple within the ranges Tuple[] guarantees:
-    // calls the closure exactly d + d1 times with the RFC Enc index sequence, every index < L;
-    // the `while b1 >= P` loops stop within P1 - P + 1 <= 14 steps (unwinding assertion = termination obligation).
-    #[kani::proof]
-    #[kani::unwind(31)]
-    pub(crate) fn enc_indices_matches_rfc() {
-        let idx: usize = kani::any();
-        kani::assume(idx < 477);
+    /// (x + a) mod m for x, a < m, written without a division (independent of the code's `%`)
+    fn step(x: u32, a: u32, m: u32) -> u32 {
+        let s = x as u64 + a as u64;
+        if s >= m as u64 {
+            (s - m as u64) as u32
+        } else {
+            s as u32
+        }
+    }
+
+    // C15/C04: enc_indices for a symbolic table row and ANY tuple within the ranges Tuple[] guarantees. The RFC 6330 5.3.5.3
+    // index sequence is generated on the fly inside the observer closure (no arrays, division-free) and compared call by call:
+    //   call 0: b;  calls 1..d-1: b = (b + a) mod W;  then d1 PI indices W + b1 with b1 advanced by a1 mod P1 and values >= P skipped.
+    // Exactly d + d1 calls, every index < L, no panic, no overflow; the `while b1 >= P` loops stop within P1 - P + 1 <= 14
+    // steps (the harness is unwound 31 times with unwinding assertions on: termination is an obligation).
+    fn check_row(idx: usize, d1: u32, dmax: u32) {
         let (kp, _j, s, h, w) = SYSTEMATIC_INDICES_AND_PARAMETERS[idx];
         let p1 = p1_row(idx).1;
         let l = kp + s + h;
@@ -24,28 +31,84 @@ pub(crate) mod kani_encidx {
         let d: u32 = kani::any();
         let a: u32 = kani::any();
         let b: u32 = kani::any();
-        let d1: u32 = kani::any();
         let a1: u32 = kani::any();
         let b1: u32 = kani::any();
-        kani::assume(1 <= d && d <= 30 && d <= w - 2);
+        kani::assume(1 <= d && d <= 30 && d <= w - 2 && d <= dmax);
         kani::assume(1 <= a && a < w && b < w);
         kani::assume(d1 == 2 || d1 == 3);
         kani::assume(1 <= a1 && a1 < p1 && b1 < p1);
-        let t = (d, a, b, d1, a1, b1);
-        let mut got = [0u64; 33];
-        let mut n = 0usize;
-        enc_indices(t, w, p, p1, |i| {
-            if n < 33 {
-                got[n] = i as u64;
+        let mut calls: u32 = 0;
+        let mut sb = b;
+        let mut sb1 = b1;
+        let mut seq_ok = true;
+        let mut bound_ok = true;
+        let mut spec_terminates = true;
+        enc_indices((d, a, b, d1, a1, b1), w, p, p1, |i| {
+            let expected: u64;
+            if calls == 0 {
+                expected = sb as u64;
+            } else if calls < d {
+                sb = step(sb, a, w);
+                expected = sb as u64;
+            } else {
+                if calls > d {
+                    sb1 = step(sb1, a1, p1);
+                }
+                let mut k = 0;
+                while sb1 >= p && k < 14 {
+                    sb1 = step(sb1, a1, p1);
+                    k += 1;
+                }
+                if sb1 >= p {
+                    spec_terminates = false;
+                }
+                expected = w as u64 + sb1 as u64;
             }
-            n += 1;
+            if i as u64 != expected {
+                seq_ok = false;
+            }
+            if i as u64 >= l as u64 {
+                bound_ok = false;
+            }
+            calls += 1;
         });
-        let (want, wn) = enc_indices_spec(t, w, p, p1);
-        assert!(n == wn && n == (d + d1) as usize, "C15 enc_indices yields d + d1 indices");
-        let k: usize = kani::any();
-        kani::assume(k < n);
-        assert!(got[k] == want[k], "C15 enc_indices == RFC Enc index sequence");
-        assert!(got[k] < l as u64, "C15 every Enc index < L");
-        kani::cover!(d == 30 && d1 == 3, "reach");
+        assert!(spec_terminates, "C15 the RFC's `while b1 >= P` terminates within P1 - P + 1 <= 14 steps");
+        assert!(seq_ok, "C15 enc_indices == RFC Enc index sequence");
+        assert!(bound_ok, "C15 every Enc index < L");
+        assert!(calls == d + d1, "C15 enc_indices yields d + d1 indices");
+        kani::cover!(d == dmax, "reach");
+    }
+
+    // d1 is concrete in each harness (the RFC allows only 2 and 3): with a symbolic d1 the bounded unwinding would multiply the
+    // two-iteration `for _ in 1..d1` loop by the global bound. The table row stays symbolic (all 477 rows at once).
+    #[kani::proof]
+    #[kani::unwind(31)]
+    pub(crate) fn enc_indices_matches_rfc_d1_2() {
+        let idx: usize = kani::any();
+        kani::assume(idx < 477);
+        check_row(idx, 2, 30);
+    }
+    #[kani::proof]
+    #[kani::unwind(31)]
+    pub(crate) fn enc_indices_matches_rfc_d1_3() {
+        let idx: usize = kani::any();
+        kani::assume(idx < 477);
+        check_row(idx, 3, 30);
+    }
+
+    // quick-tier stand-in (BOUNDED: d <= 8, so the harness can be unwound 15 instead of 31 times): same contract
+    #[kani::proof]
+    #[kani::unwind(15)]
+    pub(crate) fn enc_indices_bounded_d8_d1_2() {
+        let idx: usize = kani::any();
+        kani::assume(idx < 477);
+        check_row(idx, 2, 8);
+    }
+    #[kani::proof]
+    #[kani::unwind(15)]
+    pub(crate) fn enc_indices_bounded_d8_d1_3() {
+        let idx: usize = kani::any();
+        kani::assume(idx < 477);
+        check_row(idx, 3, 8);
     }
 }
